@@ -194,7 +194,8 @@ func (m *Monitors) OnBooted(node, inc int, r *raft.Raft) {
 	if fmt.Sprint(got.Servers) != fmt.Sprint(cfg.Servers) {
 		m.fail("C10", "configuration-not-restored", "n%d.%d reports configuration %v, durable state says %v", node, inc, got.Servers, cfg.Servers)
 	}
-	if rep, ok := m.reported[node]; ok {
+	if rep, ok := m.reported[node]; ok && !m.failedUserRestore(node) {
+		// (a user Restore cut short by the crash has written its snapshot without the server having taken it on yet)
 		// the previous incarnation was stopped at rest: the new one resumes with the log it had reported
 		d1 := r.VerifDump()
 		lt := d1.LastLogTerm
